@@ -296,6 +296,48 @@ def report(ctx, case, fails):
         ctx.violation(f2[0][1], rep, key=key)
 
 
+def real_gthread_proxy_probe():
+    """The REAL ThreadWorker.run() with proxy_protocol on and the peer allowed: the address declared by the PROXY line at the start
+    of a connection holds for every request of it - requests sent one by one, the connection parked in between.  A PROXY line
+    in front of a LATER request cannot replace it (such a request is refused).  -> list of failures"""
+    import time
+    import lib_gthread_real as G
+
+    def app(environ, start_response):
+        body = ("addr=%s;port=%s" % (environ.get("REMOTE_ADDR"), environ.get("REMOTE_PORT"))).encode()
+        start_response("200 OK", [("Content-Length", str(len(body)))])
+        return [body]
+    fails = []
+    with G.RealGthread(app, threads=2, keepalive=5, settings={"proxy_protocol": True, "proxy_allow_ips": "127.0.0.1"}) as srv:
+        c = srv.connect()
+        try:
+            c.sendall(b"PROXY TCP4 203.0.113.7 10.0.0.1 4711 80\r\nGET /1 HTTP/1.1\r\nHost: x\r\n\r\n")
+            st, hd, body, complete, err = G.read_response(c, 8)
+            if st != 200 or body != b"addr=203.0.113.7;port=4711":
+                fails.append("request 1 after the PROXY line: status %r, %r (expected the declared client 203.0.113.7:4711)" % (st, body[:60]))
+            else:
+                for k in (2, 3):
+                    time.sleep(0.3)
+                    c.sendall(("GET /%d HTTP/1.1\r\nHost: x\r\n\r\n" % k).encode())
+                    st, hd, body, complete, err = G.read_response(c, 8)
+                    if st != 200 or body != b"addr=203.0.113.7;port=4711":
+                        fails.append("request %d of the connection (sent after the connection was parked): status %r, %r - the address declared at the "
+                                     "start of the connection (203.0.113.7:4711) no longer applies" % (k, st, body[:60]))
+                        break
+                else:
+                    time.sleep(0.3)
+                    c.sendall(b"PROXY TCP4 198.51.100.66 10.0.0.1 666 80\r\nGET /4 HTTP/1.1\r\nHost: x\r\n\r\n")
+                    st, hd, body, complete, err = G.read_response(c, 8)
+                    if st == 200:
+                        fails.append("a PROXY line in front of request 4 of the connection was accepted: the application ran with %r (declared "
+                                     "at the start of the connection: 203.0.113.7:4711)" % (body[:60],))
+        except OSError as e:
+            fails.append("connection failed: %s" % type(e).__name__)
+        finally:
+            c.close()
+    return fails
+
+
 def run(ctx):
     ok = ctx.build()
     cases = header_matrix() + proxy_matrix()
@@ -304,6 +346,11 @@ def run(ctx):
     for _ in range(n_random):
         cases.append(gen_random(ctx.rng))
     ctx.log("%d matrix cells + %d random connections" % (n_matrix, n_random))
+    rf = real_gthread_proxy_probe()
+    ctx.count_case(("real-gthread-proxy",), True)
+    ctx.hist("family", "real gthread loop, PROXY connection of 4 requests")
+    for f in rf[:2]:
+        ctx.violation("real gthread worker: " + f, {"kind": "real-gthread-proxy"})
     bad = L.run_cases(ctx, "conn", cases)
     # coverage
     for c in cases:
@@ -380,6 +427,10 @@ def search(ctx, seeds):
 
 
 def replay(rep):
+    if rep.get("kind") == "real-gthread-proxy":
+        fs = real_gthread_proxy_probe()
+        print("failures:", fs)
+        return 1 if fs else 0
     case = L.case_from_json(rep)
     envs, errs, codes = L.run_conn(case["kind"], case["cfg"], case["peer"], case["data"])
     case.update(envs=envs, errs=errs, codes=codes)
